@@ -72,7 +72,10 @@ def one(job):
     logging.disable(logging.CRITICAL)
     seed, ntls, nquic = job
     rng = random.Random(seed)
-    mx = e2e.Mixed(rng, [e2e.random_combo(rng) for _ in range(ntls)], n_quic=nquic, noise=False)
+    def hook(r, version):
+        # an encrypted alert in mid-connection (TLS <= 1.2), the peer's data in flight follows
+        return {"mid_alert": (r.randrange(1, 3), r.randrange(2))} if version != "tls13" and r.random() < 0.35 else {}
+    mx = e2e.Mixed(rng, [e2e.random_combo(rng) for _ in range(ntls)], n_quic=nquic, noise=False, shape_hook=hook)
     kl = mx.keylog_text()
     cap = mx.capture()
     off, on = tool.run(cap, kl), tool.run(cap, kl, ["-a"])
@@ -97,6 +100,28 @@ def one(job):
                 ok = any(b"".join(segs[i:j]) == rec for i in range(len(segs)) for j in range(i + 1, min(len(segs), i + 12) + 1))
                 if not ok:
                     fails.append(f"hello-not-verbatim: {'ClientHello' if d == 0 else 'ServerHello'} record of {c['script'].v} not exported as packets of its own")
+            # ground truth for the run with -a: per direction, in record order, every clear-text handshake / CCS / alert
+            # record verbatim, every encrypted handshake record of TLS <= 1.2 as its plaintext followed by the record,
+            # encrypted alerts verbatim, and the application plaintexts - exactly those that the run WITHOUT -a exported
+            sc = c["script"]
+            for d in (0, 1):
+                off_stream = b"".join(p for _, dd, p in a if dd == (d == 0))
+                on_stream = b"".join(p for _, dd, p in b if dd == (d == 0))
+                want, used = b"", 0
+                for e in sc.rec_log[d]:
+                    if e[0] == "clear" or e[0] == "alert":
+                        want += e[1]
+                    elif e[0] == "hs":
+                        if sc.v != "tls13":
+                            want += e[2] + e[1]
+                    elif e[0] == "app":
+                        if off_stream[used:used + len(e[2])] == e[2] and used + len(e[2]) <= len(off_stream):
+                            want += e[2]
+                            used += len(e[2])
+                if used == len(off_stream) and on_stream != want:
+                    k = next((i for i, (x, y) in enumerate(zip(on_stream, want)) if x != y), min(len(on_stream), len(want)))
+                    fails.append(f"tls-meta-stream: {sc.v} direction {d}: with -a {len(on_stream)} bytes exported, expected {len(want)} "
+                                 f"(handshake/CCS/alert material + the {used} application bytes exported without -a); first difference at byte {k}")
             e2e.decode(on.out)
         for q in mx.quic:
             conn = q["conn"]
